@@ -268,7 +268,14 @@ class WebSocket:
             self.handshake_response = handshake(self.sock, url, *addrs, **options)
             for _ in range(options.pop("redirect_limit", 3)):
                 if self.handshake_response.status in SUPPORTED_REDIRECT_STATUSES:
-                    url = self.handshake_response.headers["location"]
+                    url = self.handshake_response.headers.get("location")
+                    if not url:
+                        raise WebSocketBadStatusException(
+                            f"Handshake status {self.handshake_response.status}: redirect without Location header",
+                            self.handshake_response.status,
+                            None,
+                            self.handshake_response.headers,
+                        )
                     self.sock.close()
                     self.sock, addrs = connect(
                         url,
